@@ -66,6 +66,18 @@ def new_run(rng, tier):
                  'rightAsset': spec['assets'][0]['name'], 'rightField': 'lnkB',
                  'rightMultiplicity': {'min': 0, 'max': None}})
         src = 'gen'
+    if src == 'gen' and rng.random() < 0.2:
+        # a specification written as a dict (or shipped in a .mar) may override an inherited
+        # step with an *empty* list of expressions: "-> nothing" (MAL text cannot say that)
+        L0 = Lang(copy.deepcopy(spec))
+        cands = [(i, j) for i, a in enumerate(spec['assets']) for j, st in enumerate(a['attackSteps'])
+                 if a['superAsset'] and st['reaches'] and st['reaches']['overrides']
+                 and st['name'] in L0.steps(a['superAsset'])
+                 and L0.steps(a['superAsset'])[st['name']]['reaches']]
+        if cands:
+            i, j = rng.choice(cands)
+            spec['assets'][i]['attackSteps'][j]['reaches']['stepExpressions'] = []
+            cfg['empty_override'] = True
     desc = {'spec': spec, 'source': src}
     if src == 'gen' and rng.random() < 0.25:
         # a specification built in Python (or YAML with anchors) may share one list or dict
@@ -127,6 +139,8 @@ class World(BaseWorld):
         self.unis = [None, None]
         if desc.get('source') == 'corelang':
             self.count('probe:corelang')
+        if cfg.get('empty_override'):
+            self.count('probe:inherited_step_overridden_with_no_expressions')
         # probe: the C03 shape
         self.shape = self._has_shape()
         if self.shape:
